@@ -122,7 +122,7 @@ pub fn runhist(args: &crate::Args) -> Report {
             let n = w.counter + 1;
             let op = if roll < 50 || active.is_empty() {
                 let token = w.next_token();
-                let class = w.rng.below(if profile == "corpus" { 9 } else { 10 });
+                let class = if profile == "tiny" { [0u64, 1, 2, 3, 6, 8, 0, 4][w.rng.below(8) as usize] } else { w.rng.below(if profile == "corpus" { 9 } else { 10 }) };
                 let mut op = json!({"op": "put", "token": token, "uri": format!("mv2://{}/Doc{n}", w.rng.pick(&["docs", "Notes"])), "ts": 1_700_000_000 + n as i64 * 10, "instant": w.rng.chance(1, 4), "gen": w.rng.next(),
                     "title": format!("Title {n}"), "tags": if w.rng.chance(1, 2) { vec![format!("tag{}", n % 3)] } else { vec![] }});
                 match class {
@@ -153,7 +153,7 @@ pub fn runhist(args: &crate::Args) -> Report {
             };
             if !step(&mut w, i, &op, &mut contents, &mut states) { break; }
         }
-        if profile == "corpus" || args.flag("final-commit") {
+        if profile == "corpus" || profile == "tiny" || args.flag("final-commit") {
             let i = states.len();
             let _ = step(&mut w, i, &json!({"op": "commit"}), &mut contents, &mut states);
         }
